@@ -128,19 +128,32 @@ def check(run):
                     c = f"BASE_GRID_TOPOLOGY_ATTRS[{k}]"
                     # guaranteed only if the encoder (or Grid.to_xarray) makes sure the named variables exist
                     names = v.split()
-                    ensured = False
-                    for g in (P.func(f"{GRID}:Grid.to_xarray"), f):
-                        for n in ast.walk(g.node):
-                            if isinstance(n, ast.Attribute) and n.attr in names and isinstance(n.ctx, ast.Load):
-                                ensured = True
-                            if isinstance(n, ast.Compare) and str_const(n.left) in names:
-                                ensured = True
-                    if ensured:
-                        run.holds("F-GUARD/topology-names", c, where(f), f"'{v}' ensured before encoding")
-                    else:
-                        run.violation("F-GUARD/topology-names", c, where(f),
-                                      f"the base topology always names '{v}', but a grid built from Cartesian node coordinates only has no such variables until node_lon is requested: "
-                                      "the exported metadata then names variables absent from the dataset")
+                    # either the encoder itself tests the names, or EVERY call site of the encoder first reads the
+                    # Grid property that populates them (statements before the call in the same statement list)
+                    in_encoder = any(isinstance(n, ast.Compare) and str_const(n.left) in names for n in ast.walk(f.node))
+                    sites = []
+                    for g in P.all_functions():
+                        for lst in _stmt_lists(g.node.body):
+                            for i, stx in enumerate(lst):
+                                if isinstance(stx, (ast.If, ast.For, ast.While, ast.With, ast.Try)):
+                                    continue
+                                for cl in ast.walk(stx):
+                                    if isinstance(cl, ast.Call) and (dotted(cl.func) or [""])[-1] == "_encode_ugrid":
+                                        before = lst[:i]
+                                        got = {n.attr for b in before for n in ast.walk(b) if isinstance(n, ast.Attribute) and isinstance(n.ctx, ast.Load) and isinstance(n.value, ast.Name) and n.value.id == "self"}
+                                        # lon/lat of one element kind are populated together
+                                        from ..rules.lazy import family
+                                        sites.append((g, cl, {family(x) for x in got} >= {family(x) for x in names}))
+                    for g, cl, ok_site in sites:
+                        cs = f"{g.key}:call(_encode_ugrid):ensures[{k}]"
+                        if in_encoder or ok_site:
+                            run.holds("F-GUARD/topology-names", cs, where(g, cl), f"'{v}' populated before the encoder runs")
+                        else:
+                            run.violation("F-GUARD/topology-names", cs, where(g, cl),
+                                          f"the base topology always names '{v}', but a grid built from Cartesian node coordinates only has no such variables until node_lon is requested: "
+                                          "the exported metadata then names variables absent from the dataset")
+                    if not sites:
+                        run.incomplete("F-GUARD/topology-names", c, where(f), "no call site of _encode_ugrid found")
     # ---- non-serialisable attrs on variables stored in _ds
     stripped = _attrs_stripped_by_encoder(P, f)
     run.stats["attrs_stripped_by_ugrid_encoder"] = sorted(f"{v}.{k}" for v, k in stripped)
@@ -271,3 +284,17 @@ def _attrs_stripped_by_encoder(P, f):
             if st.value.args and str_const(st.value.args[0]) and is_attrs_of(recv, lambda sl: str_const(sl) is not None):
                 out.add((str_const(recv.value.slice), str_const(st.value.args[0])))
     return out
+
+
+def _stmt_lists(body):
+    """every statement list (function body and bodies of compound statements), recursively"""
+    yield body
+    for st in body:
+        if isinstance(st, (ast.FunctionDef, ast.AsyncFunctionDef, ast.ClassDef)):
+            continue
+        for fld in ("body", "orelse", "finalbody"):
+            sub = getattr(st, fld, None)
+            if sub:
+                yield from _stmt_lists(sub)
+        for h in getattr(st, "handlers", []) or []:
+            yield from _stmt_lists(h.body)
